@@ -35,7 +35,7 @@ class Predictor:
         if models_or_heuristics == "zero":
             self.predict = lambda x: torch.zeros((x.shape[0],))
         elif models_or_heuristics == "hamming":
-            self.predict = lambda x: _hamming_distance(graph.central_state, x)
+            self.predict = lambda x: _hamming_distance(graph.central_state, x.reshape((x.shape[0], -1)))
         elif isinstance(models_or_heuristics, torch.nn.Module):
             self.predict = models_or_heuristics
             self.predict.eval()
